@@ -675,7 +675,15 @@ impl GraphTensor {
 
         // Restore edges
         for edge in snapshot.edges {
-            let edge_type = &snapshot.edge_types[edge.edge_type_idx as usize];
+            // An index outside the stored type list (damaged snapshot) cannot be resolved:
+            // skip the edge rather than panic.
+            let Some(edge_type) = snapshot.edge_types.get(edge.edge_type_idx as usize) else {
+                tracing::warn!(
+                    edge_type_idx = edge.edge_type_idx,
+                    "Skipping edge with unknown edge type index"
+                );
+                continue;
+            };
             graph.add_edge(edge.from, edge.to, edge_type, edge.directed);
         }
 
